@@ -160,6 +160,7 @@ class FakeStream(trio.abc.HalfCloseableStream):
                     self.write_fail_armed = False
                     self.broken = True
                     self.rec.lost_at = self.world.now()
+                    self.rec.lost_seq = self.world.next_seq()
                     # a failed send means the peer reset the connection: the read side sees it too
                     if self.terminal is None:
                         self.terminal = BrokenPipeError(32, "Broken pipe")
@@ -244,6 +245,7 @@ class FakeStream(trio.abc.HalfCloseableStream):
             self.terminal = item
             if isinstance(item, BaseException):
                 self.rec.lost_at = self.world.now()
+                self.rec.lost_seq = self.world.next_seq()
                 self.broken = True
                 self._send_lot.unpark_all()
         self._recv_lot.unpark_all()
